@@ -23,6 +23,7 @@ def run(R):
     ro = Roles(R)
     common.active_task_pair(R, ro, "C08.ACTIVE-PAIR")
     common.unwind_rule(R, ro, "C08.UNWIND")
+    common.typed_stack_elements(R, ro, "C08.UNWIND-TYPED")
     common.step_live(R, ro, "C08.STEP-LIVE")
     common.escape_rule(R, ro, "C08.ESCAPE", ("step", "provider", "flush"), "so the scheduler keeps running")
     from .c02 import capture_guard
